@@ -161,12 +161,12 @@ def run_check(prop, tier, seed, count=None):
             seen_cls[c] = seen_cls.get(c, 0) + 1
             recs = r.get('tapes') or {}
             best, bres = runner.shrink(r['_world'], r['seed'], r['_params'], recs, c,
-                                       budget_s=float(os.environ.get('VERIF_SHRINK_S', '25')))
+                                       budget_s=float(os.environ.get('VERIF_SHRINK_S', '25')), key=v.get('key') or {})
             rep = bres if bres is not None else r
             vv = v
             if bres is not None:
                 for x in bres['violations']:
-                    if x.get('cls') == c:
+                    if x.get('cls') == c and (x.get('key') or {}) == (v.get('key') or {}):
                         vv = x
                         break
                 k2 = match_known(prop, vv, known)
